@@ -8,6 +8,7 @@ inductive St where
   | typed (t : TRing Int) (isChar : Bool)
   | cyc (c : Cyclic Int)
   | rc (c : RingCounter)
+  | bring (b : ByteRing) (mem : List Byte)
 
 def b01 (b : Bool) : String := if b then "1" else "0"
 
@@ -62,6 +63,9 @@ def stepRingLine (r : RingHead) (buf : List Byte) (w : List String) : Option (Ri
     | ["each"] =>
         let l := ringForEach r r.size.toNat r.tail
         pure (r, buf, ints (l.map fun x => (x.toNat : Int)))
+    | ["eachv"] => do
+        let l ← ringForEachFold r buf (fun (acc : List Byte) _ x => acc ++ [x]) (r.size.toNat + 1) r.tail []
+        pure (r, buf, bytesHex l)
     | ["dump"] => pure (r, buf, bytesHex buf)
     | _ => pure (r, buf, "bad-op")
 
@@ -96,6 +100,11 @@ def stepTyped (t : TRing Int) (isChar : Bool) (w : List String) : Option (TRing 
       let a ← i32 a; let b ← i32 b
       pure (t, toString (t.distance a b).toInt)
   | ["setlast", i] => do let i ← i32 i; pure (t.setLastIndex i, "-")
+  | ["copy"] => pure (TRing.copy 0 t, "-")
+  | ["assign"] => pure (TRing.assign (TRing.mk' 0 3) t, "-")
+  | ["move"] =>
+      let (n, old) := t.move
+      pure (n, s!"{old.buf.length} {old.r.size.toNat}")
   | ["write", d] => do
       let d ← parseBytes? d
       let (r', buf', n) ← ringWrite t.r t.buf (d.map fun b => b.toInt)
@@ -119,19 +128,64 @@ def stepCyc (c : Cyclic Int) (w : List String) : Option (Cyclic Int × String) :
   | ["resize", n] => do let n ← n.toNat?; pure (Cyclic.resize 0 c n, "-")
   | _ => pure (c, "bad-op")
 
+def showOI (o : Option Int) : String := match o with | some v => toString v | none => "fault"
+
+/-- the `int`-checked functions (`fault` = signed overflow) -/
 def stepRc (c : RingCounter) (w : List String) : RingCounter × String :=
   match w with
   | ["inc", a] => match a.toInt? with
-      | some a => (rcIncrement c a, "-")
+      | some a => match rcIncrementC c a with
+          | some c' => (c', "-")
+          | none => (c, "fault")
       | none => (c, "bad-op")
   | ["set", a] => match a.toInt? with
-      | some a => (rcSet c a, "-")
+      | some a => match rcSetC c a with
+          | some c' => (c', "-")
+          | none => (c, "fault")
       | none => (c, "bad-op")
-  | ["prev", a] => (c, (a.toInt?.map fun a => toString (rcPrev c a)).getD "bad-op")
-  | ["last", a] => (c, (a.toInt?.map fun a => toString (rcLast c a)).getD "bad-op")
-  | ["fixpos", a] => (c, (a.toInt?.map fun a => toString (rcFixupPos c a)).getD "bad-op")
+  | ["prev", a] => (c, (a.toInt?.map fun a => showOI (rcPrevC c a)).getD "bad-op")
+  | ["last", a] => (c, (a.toInt?.map fun a => showOI (rcLastC c a)).getD "bad-op")
+  | ["fixpos", a] => (c, (a.toInt?.map fun a => showOI (rcFixupPosC c a)).getD "bad-op")
   | ["get"] => (c, toString (rcGet c))
   | _ => (c, "bad-op")
+
+def bringState (b : ByteRing) : String :=
+  s!"{b.head - b.start} {b.tail - b.start} {b01 (brEmpty b)} {b01 (brFull b)}"
+
+def stepBring (b : ByteRing) (mem : List Byte) (w : List String) : Option (ByteRing × List Byte × String) :=
+  match w with
+  | ["push", c] => do
+      let c ← parseBytes? c; let c ← c.head?
+      let (b', m', rc) ← brPush b mem c
+      pure (b', m', toString rc)
+  | ["pushn", c] => do
+      let c ← parseBytes? c; let c ← c.head?
+      let (b', m') ← brPushNocheck b mem c
+      pure (b', m', "-")
+  | ["pop"] => do let (b', v) ← brPop b mem; pure (b', mem, toString v)
+  | ["popn"] => do let (b', v) ← brPopNocheck b mem; pure (b', mem, toString v)
+  | ["dump"] => pure (b, mem, bytesHex mem)
+  | _ => pure (b, mem, "bad-op")
+
+/-- `lifecount <n> <script>`: a ring<Tracked>(n) runs the script (u push, o pop,
+c clear, z resize(n), y copy-construct and continue with the copy, m move-construct
+and continue with the new object) and is destroyed; the three lifetime counters -/
+def lifeScript (l : LRing Int) (n : Nat) : List Char → Nat → Option (LRing Int)
+  | [], _ => some l.destroy
+  | ch :: rest, k =>
+    match ch with
+    | 'u' => (l.push (k : Int)).bind fun l' => lifeScript l' n rest (k + 1)
+    | 'o' => l.pop.bind fun l' => lifeScript l' n rest k
+    | 'c' => (LRing.clear (l.t.r.size.toNat + 1) l).bind fun l' => lifeScript l' n rest k
+    | 'z' => lifeScript (LRing.resize 0 l n) n rest k
+    | 'y' => lifeScript (LRing.copyAndDrop 0 l) n rest k
+    | 'm' => lifeScript l.moveAndDrop n rest k
+    | _ => none
+
+def lifeCount (n : Nat) (script : String) : String :=
+  match lifeScript (LRing.mk' 0 n) n (if script == "-" then [] else script.toList) 0 with
+  | some l => s!"{l.overLive} {l.deadDtor} {l.deadRead}"
+  | none => "fault"
 
 def stepLine (s : St) (line : String) : St × String :=
   match words line with
@@ -149,9 +203,17 @@ def stepLine (s : St) (line : String) : St × String :=
       match n.toNat? with
       | some k => let c : Cyclic Int := Cyclic.mk' 0 k; (.cyc c, s!"- {c.counter.counter} {c.fill}")
       | none => (s, "bad-op")
+  | ["reset", "bring", n] =>
+      match n.toNat? with
+      | some k => let b := brInit 4096 k; (.bring b (initPattern k), "- " ++ bringState b)
+      | none => (s, "bad-op")
   | ["reset", "rc", n] =>
       match n.toInt? with
       | some k => let c := rcInit k; (.rc c, s!"- {c.counter}")
+      | none => (s, "bad-op")
+  | ["lifecount", n, script] =>
+      match n.toNat? with
+      | some k => (s, lifeCount k script)
       | none => (s, "bad-op")
   | "lifeprobe" :: _ => (s, "-")   -- oracle-only operation: object lifetime is not modelled
   | w =>
@@ -168,6 +230,10 @@ def stepLine (s : St) (line : String) : St × String :=
     | .cyc c =>
         match stepCyc c w with
         | some (c', out) => (.cyc c', s!"{out} {c'.counter.counter} {c'.fill}")
+        | none => (s, "fault")
+    | .bring b mem =>
+        match stepBring b mem w with
+        | some (b', mem', out) => (.bring b' mem', out ++ " " ++ bringState b')
         | none => (s, "fault")
     | .rc c =>
         let (c', out) := stepRc c w
